@@ -395,7 +395,11 @@ impl IncrementalSigner {
         signature: &Signature,
         public_key: &PublicKey,
     ) -> Result<(), Error> {
-        crypto_sign_final_verify(self.state, signature.as_array(), public_key.as_array())?;
+        crypto_sign_final_verify(
+            self.state,
+            received_array(signature, "signature")?,
+            public_key.as_array(),
+        )?;
 
         Ok(())
     }
@@ -416,7 +420,7 @@ impl<Signature: ByteArray<CRYPTO_SIGN_BYTES> + Zeroize, Message: Bytes + Zeroize
         public_key: &PublicKey,
     ) -> Result<(), Error> {
         crypto_sign_verify_detached(
-            self.signature.as_array(),
+            received_array(&self.signature, "signature")?,
             self.message.as_slice(),
             public_key.as_array(),
         )
